@@ -304,7 +304,22 @@ def f45():
     return "accepted"
 
 
-for name, fn in (("F36", f36), ("F37", f37), ("F38", f38), ("F39", f39), ("F40", f40), ("F41", f41), ("F42", f42), ("F43", f43), ("F44", f44), ("F45", f45)):
+def f46():
+    """C10: length of a one-segment polyline with Fraction knots raised TypeError before 983fc55"""
+    from compmec.nurbs.calculus import Integrate
+
+    c = Curve(KnotVector([F(0), F(0), F(2), F(2)]), np.array([(0, 0), (3, 4)]))
+    return True if abs(Integrate.lenght(c) - 5) < 1e-12 else Integrate.lenght(c)
+
+
+def f47():
+    """C19: projection onto a polyline with Fraction knots and points raised TypeError before ecefb7b"""
+    c = Curve([F(0), F(0), F(1), F(2), F(2)], np.array([[F(0), F(0)], [F(2), F(0)], [F(2), F(2)]], dtype=object))
+    res = Projection.point_on_curve((F(1), F(1)), c)
+    return True if tuple(float(x) for x in res) == (0.5, 1.5) else res
+
+
+for name, fn in (("F36", f36), ("F37", f37), ("F38", f38), ("F39", f39), ("F40", f40), ("F41", f41), ("F42", f42), ("F43", f43), ("F44", f44), ("F45", f45), ("F46", f46), ("F47", f47)):
     if len(sys.argv) > 1 and name not in sys.argv[1:]:
         continue
     t(name, fn)
